@@ -77,16 +77,32 @@ def run_vectors(work, target, vectors, tables_path, tag):
     return vlib.read_ndjson(trp), wall
 
 
-def run_generators(work, target, gens, n, tables_path, tag, extra_env=None):
+def run_generators(work, target, gens, n, tables_path, tag, extra_env=None, race=False):
+    """race=True: build and run with the Go race detector when the toolchain can (falls back to a normal build).
+    A data race reported by the detector is returned as a pseudo trace line (ev "DataRace"), never as Broken."""
     module, pkg, inject = TARGETS[target]
     trp = os.path.join(work, "trace_%s_%s_gen.ndjson" % (tag, target))
     env = {"VERIF_FMT_GEN": ",".join(gens), "VERIF_FMT_N": n, "VERIF_TRACE": trp, "VERIF_FMT_TABLES": tables_path,
            "VERIF_SEED": vlib.seed()}
     env.update(extra_env or {})
-    rc, out, wall = vlib.go_test(work, module, pkg, "^TestVerifFmtTrace$", inject, env=env, timeout=1500)
-    if "VERIF-FMT generators=" not in out or rc != 0:
+    raced = False
+    rc, out, wall = vlib.go_test(work, module, pkg, "^TestVerifFmtTrace$", inject, env=env, timeout=1500, race=race)
+    if race and "VERIF-FMT generators=" not in out and "DATA RACE" not in out:
+        # the race build is not available here: run the same generators without it
+        race = False
+        rc, out, wall2 = vlib.go_test(work, module, pkg, "^TestVerifFmtTrace$", inject, env=env, timeout=1500)
+        wall += wall2
+    lines = vlib.read_ndjson(trp)
+    if race and "WARNING: DATA RACE" in out:
+        raced = True
+        m = out[out.index("WARNING: DATA RACE"):]
+        lines.append({"t": 2, "n": 0, "ev": "DataRace", "a": {"src": "go-race-detector", "gens": list(gens)},
+                      "s": {"report": m[:2500]}})
+    if "VERIF-FMT generators=" not in out or (rc != 0 and not raced):
         raise vlib.Broken("format harness (%s, generators %s) did not complete (rc=%d):\n%s" % (target, gens, rc, out[-4000:]))
-    return vlib.read_ndjson(trp), wall
+    for ln in lines:
+        ln["race_detector"] = race
+    return lines, wall
 
 
 def fuzz(work, tables_path, seeds_hex, fuzztime, workers):
